@@ -148,6 +148,24 @@ def messages(tier, seed):
                 continue
             seen.add(text)
             out.append((f'{c["label"]}|{variant}', text, TJ.to_text(c['ro'])))
+    # every class once more with IDs that contain commas, dots, blanks, quotes (the short-ID idiom of __repr__ must not
+    # leak into what a message exposes or prints)
+    ids = ['OM_4.15529413,4.15529413.1', 'OM_4.15529413,4.15529413.2', 'a,b,c', "O'NEILL, x", ' padded ', 'x,']
+    A, Bb, C, Dd = ids[0], ids[1], ids[2], ids[3]
+    sp_ro = TJ.to_text(B.ro_doc([B.story(A, [B.item(A), B.item(Bb), B.item(C)]), B.story(Bb, [B.item(A)]), B.story(C, []), B.story(Dd, [])]))
+    sp = [('StorySend', B.story_send(A, [B.p('x')])), ('StoryAppend', B.story_append([B.story(ids[4], []), B.story(ids[5], [])])),
+          ('StoryDelete', B.story_delete([A, C, Bb])), ('StoryInsert', B.story_insert(Bb, [B.story(ids[4], []), B.story(ids[5], [])])),
+          ('StoryMove', B.story_move([C, A])), ('StoryReplace', B.story_replace(C, [B.story(ids[4], [])])),
+          ('ItemDelete', B.item_delete(A, [Bb, A])), ('ItemInsert', B.item_insert(A, Bb, [B.item(ids[4]), B.item(ids[5])])),
+          ('ItemMoveMultiple', B.item_move_multiple(A, [C, Bb, A])), ('ItemReplace', B.item_replace(A, Bb, [B.item(ids[4])])),
+          ('EAStoryReplace', B.ea('REPLACE', {'storyID': C}, [[B.story(ids[4], [])]])), ('EAItemReplace', B.ea('REPLACE', {'storyID': A, 'itemID': Bb}, [[B.item(ids[4])]])),
+          ('EAStoryDelete', B.ea('DELETE', B.ABSENT, [B.ids('storyID', [A, C])])), ('EAItemDelete', B.ea('DELETE', {'storyID': A}, [B.ids('itemID', [Bb, A])])),
+          ('EAStoryInsert', B.ea('INSERT', {'storyID': Bb}, [[B.story(ids[5], [])]])), ('EAItemInsert', B.ea('INSERT', {'storyID': A, 'itemID': C}, [[B.item(ids[5])]])),
+          ('EAStorySwap', B.ea('SWAP', B.ABSENT, [B.ids('storyID', [A, Bb])])), ('EAItemSwap', B.ea('SWAP', {'storyID': A}, [B.ids('itemID', [A, Bb])])),
+          ('EAStoryMove', B.ea('MOVE', {'storyID': A}, [B.ids('storyID', [C, Bb])])), ('EAItemMove', B.ea('MOVE', {'storyID': A, 'itemID': A}, [B.ids('itemID', [C, Bb])]))]
+    for cls, m in sp:
+        for variant, tree in (('compact', m), ('pretty', pretty(m))):
+            out.append((f'special IDs {cls}|{variant}', TJ.to_text(tree), sp_ro))
     rng = random.Random(seed * 17 + 9)
     g = gen_hist.Gen(rng)
     state = TJ.canon(g.ro(4))
